@@ -224,7 +224,7 @@ class Element(ElementOfUnknownGroup):
         sum_element = ElementOfUnknownGroup.add(self, other)
         if sum_element is Zero:
             return sum_element
-        if isinstance(other, Element):
+        if isinstance(other, Element) or other is Zero:
             # adding two subgroup elements results in another subgroup
             # element, or Zero, and we've already excluded Zero
             return Element(sum_element.XYTZ)
